@@ -45,8 +45,13 @@ _Set_update(Bucket *self, PyObject *seq)
     while (1) {
         v = PyIter_Next(iter);
         if (v == NULL) {
-            if (PyErr_Occurred())
+            if (PyErr_Occurred()) {
+                /* the iterator failed (with ind >= 0 the exit below would
+                * return the count with the exception still set)
+                */
+                ind = -1;
                 goto err;
+            }
             else
                 break;
         }
